@@ -119,6 +119,7 @@ class MasterConvergence(Observer):
         self.last_self_master = {}
         self.declared = {}
         self.forced_master = {}
+        self.saw_failed = False
 
     def _probe(self, name):
         self.probes[name] = self.probes.get(name, 0) + 1
@@ -209,6 +210,9 @@ class MasterConvergence(Observer):
     def after_event(self, sim, inst, kind):
         if inst.alive and inst.supvisors is not None and inst.supvisors.state_modes.is_master():
             self.last_self_master[(inst.nick, inst.incarnation)] = (sim.now_us, inst.supvisors.fsm.state.name)
+        if inst.alive and inst.supvisors is not None and not self.saw_failed:
+            if any(st.state.name == 'FAILED' for st in inst.supvisors.context.instances.values()):
+                self.saw_failed = True
         # sample the declared masters at most every 2 simulated seconds
         if self.samples and sim.now_us - self.samples[-1][0] < 2 * US:
             return
@@ -269,9 +273,43 @@ class MasterConvergence(Observer):
                 if views[n][2].get(m_ident) != 'RUNNING':
                     self.violate('master-not-seen-running', dict(detail, observer=n, seen=views[n][2].get(m_ident)),
                                  'final-master-not-running')
-            # Master kept: the only recognised, self-declared Master, undisturbed since, is still the Master
+            # Master kept when instances join (judged in join-only runs, see _check_kept_on_join)
+            self._check_kept_on_join(comp, m_nick, detail)
             # cold-start rule
             self._check_rule(comp, m_nick, detail)
+
+    def _check_kept_on_join(self, comp, m_final, detail):
+        """ "A running Master that is the only one recognised is kept when instances join". Judged in runs whose plan
+        holds nothing but boots and slow links (no membership change other than joins, no failure ever declared): the
+        Master agreed by everybody for 15 s before the last join, in a working state and alive to the end, is the final
+        Master. """
+        sim = self.sim
+        applied = [(t, item) for t, item, fired in self.run.applied if fired]
+        if any(item['kind'] not in ('boot', 'slow') for _t, item in applied) or self.saw_failed:
+            return
+        boots = sorted(t for t, item in applied if item['kind'] == 'boot')
+        if len(boots) < 2 or boots[-1] < 40 * US:
+            return
+        t_join = boots[-1]
+        window = [(t, decl, fsm) for t, decl, fsm in self.samples if t_join - 16 * US <= t <= t_join - 1 * US]
+        if len(window) < 4:
+            return
+        established = None
+        for t, decl, fsm in window:
+            named = {m for m in decl.values()}
+            if len(named) != 1 or '' in named:
+                return
+            m = next(iter(named))
+            if decl.get(m) != m or fsm.get(m) not in WORKING or (established is not None and m != established):
+                return
+            established = m
+        inst = sim.instances.get(established)
+        if inst is None or not inst.alive or inst.incarnation != 0 or established not in comp:
+            return
+        self._probe('kept_on_join_premise')
+        if m_final != established:
+            self.violate('master-not-kept', dict(detail, established=established, joined_at=t_join / US, final=m_final),
+                         'established-master-deposed-by-joiner')
 
     def _check_kept(self, comp, m_final, detail):
         sim = self.sim
